@@ -91,6 +91,10 @@ class RunTaskExecutable(Operation):
             }
             if slot is not None:
                 env_vars[SLOT_ENV_VARIABLE_NAME] = str(slot)
+            else:
+                # Do not leak a slot number that Conductor itself inherited
+                # (e.g., when `cond run` is invoked from inside a task).
+                env_vars.pop(SLOT_ENV_VARIABLE_NAME, None)
 
             if self._record_output:
                 if slot is None:
